@@ -248,6 +248,9 @@ class Sequencer(object):
             # NoteContainer.
             playing_new = []
             for (n, x) in enumerate(cur):
+                if x >= len(bars[n]):
+                    # an empty bar: nothing to start
+                    continue
                 (start_tick, note_length, nc) = bars[n][x]
                 # (the beat sums of different bars are rounded differently)
                 if start_tick <= tick + 0.00001 and started[n] != x:
